@@ -109,6 +109,12 @@ def designed_histories():
     hs.append(("unseg other apid", H([(A, F, 1), (B, U, 9), (A, L, 2)])))
     hs.append(("orphan C then L", H([(A, C, 1), (A, L, 2)])))
     hs.append(("two groups", H([(A, F, 1), (A, L, 2), (A, F, 3), (A, C, 4), (A, L, 5)])))
+    # APID boundary values: 0 (falsy) and 2047 (all ones) take part in combining like any other APID
+    for Z in (0, 2047):
+        hs.append((f"apid {Z}: F C L", H([(Z, F, 1), (Z, C, 2), (Z, L, 3), (Z, L, 4)])))
+        hs.append((f"apid {Z}: F L with gap", H([(Z, F, 1), (Z, L, 3), (Z, C, 4)])))
+        hs.append((f"apid {Z}: orphan C, orphan L, unsegmented", H([(Z, C, 1), (Z, L, 2), (Z, U, 3)])))
+        hs.append((f"apid {Z} interleaved with apid {A}", H([(Z, F, 1), (A, F, 10), (Z, C, 2), (A, L, 11), (Z, L, 3)])))
     # later members whose data field is as long as / shorter than / one byte longer than the secondary header
     for n in (1, 2, 3):
         hs.append((f"later members with {n}-byte data fields",
@@ -288,6 +294,25 @@ def check(ctx: Ctx) -> None:
                    where=where(fi, fi.node))
     except (Unsupported, Raised) as e:
         ctx.unknown("R12.off", f"{site0}::combine-off", str(e))
+    # header-only framing: every raw packet is handed out as it is, whatever its flags and whether or not combining is on
+    for combine in (True, False):
+        site = f"{site0}::headers-only::combine={combine}"
+        try:
+            A, B = 7, 0
+            h = [(A, F, 1, b"\x01\x02"), (A, C, 2, b"\x03\x04"), (B, L, 9, b"\x0a"), (A, L, 3, b"\x05\x06"), (A, U, 4, b"\x07\x08"),
+                 (B, C, 10, b"\x0b")]
+            it = make_interp(prog, {"XtcePacketDefinition.parse_ccsds_packet": lambda *a, **k: (_ for _ in ()).throw(Unsupported("parser called in header-only mode")),
+                                    "space_packet_parser.packets.ccsds_generator": lambda b, **k: b}, max_steps=400000)
+            pk = [raw_packet(dd, apid=a, flags=f, count=c) for a, f, c, dd in h]
+            ys = it.call(fi, [model_definition(it, "ROOT"), pk], {"ccsds_headers_only": True, "combine_segmented_packets": combine})
+            got = [bytes(y) if isinstance(y, bytes) else repr(y) for y in ys]
+            want = [_hdr(a, f, c, dd) for a, f, c, dd in h]
+            ctx.decide(got == want, "R12.off", site, "header-only framing yields every packet",
+                       f"with ccsds_headers_only=True and combine_segmented_packets={combine} the generator yields "
+                       f"{len(got)} of {len(want)} raw packets ({[g.hex() if isinstance(g, bytes) else g for g in got]}): segmented packets must be "
+                       f"handed out like all others", where=where(fi, fi.node))
+        except (Unsupported, Raised) as e:
+            ctx.unknown("R12.off", site, str(e))
 
     # state does not outlive a generator: a group left open by one stream must not be completed by the next one
     try:
